@@ -499,7 +499,9 @@ class Stream(APIRegisterMixin):
                 try:
                     result = await asyncio.gather(*self._emit(x, metadata=metadata))
                 finally:
-                    del thread_state.asynchronous
+                    # other blocking emits may still be pending on the loop thread:
+                    # clear the flag the way sync() does, without assuming it is set
+                    thread_state.asynchronous = False
                 return result
 
             sync(self.loop, _)
